@@ -108,6 +108,16 @@ impl Ctx {
                 self.rep.notes.push(format!("reached record outside wf_b: {} ({})", u.as_str(), hist_case(start, ops)));
             }
         }
+        // C03: the views outside the model's record (socket_addrs, Hash/Eq/Ord/Display, serde form) agree with the
+        // serialization - evaluated on records the model finds well-formed, against the previously observed URL
+        if self.prop == "C03" && w == "1" {
+            thread_local! { static LAST: std::cell::RefCell<Option<Url>> = std::cell::RefCell::new(None); }
+            let last = LAST.with(|l| l.borrow().clone());
+            let v = prop_c03_views(u, last.as_ref()).unwrap_or_else(|| "agree".into());
+            any |= v != "agree";
+            self.rep.case("views", &format!("views {} {}", tok, last.as_ref().map(|o| url_token(o)).unwrap_or_else(|| "~".into())), "agree", &v, true, if v == "agree" { "views:agree" } else { "views:disagree" });
+            LAST.with(|l| *l.borrow_mut() = Some(u.clone()));
+        }
         if self.search && any {
             if let Some(wh) = property_on_url(&self.prop, u) {
                 if self.rep.failures.len() < 20 {
@@ -156,6 +166,16 @@ pub fn run_streams(args: &Args, search: bool) -> Report {
         }
     }
 
+    // C03: every ordered pair of the ordering pool (schemes in prefix relation, components vs serialization order)
+    if prop == "C03" {
+        let pool = ord_pool();
+        for a in &pool {
+            for b in &pool {
+                let v = prop_c03_views(a, Some(b)).unwrap_or_else(|| "agree".into());
+                cx.rep.case("views-ord-pool", &format!("views {} {}", url_token(a), url_token(b)), "agree", &v, true, if v == "agree" { "views:agree" } else { "views:disagree" });
+            }
+        }
+    }
     // exhaustive: every start x every single operation x every pool argument
     let singles = all_single_ops();
     for u in &starts {
